@@ -477,6 +477,9 @@ def check_reference_energy(prog: Program, L: Ledger) -> None:
 
     L.rule("E", "on every abstract path, at the start of the first trial and after every completed trial, context.last_potential_energy (E_old of the formula) is the energy of the configuration the trial starts from")
     scs = scenarios(prog, with_composites=False, iterations=1)
+    if L.tier == "thorough":
+        # composite move tables as well, and two consecutive trials (the reference the second trial actually reads)
+        scs = scenarios(prog, with_composites=True, iterations=1) + scenarios(prog, with_composites=False, iterations=2)
     L.floor("driver × move scenarios for the reference energy", len(scs), 8)
     n = 0
     for label, stats, findings, oks, err in run_all(prog, "qsa.props.c02", scs):
